@@ -276,6 +276,7 @@ def run(ctx):
     ctx.notes["updateScores_variant"] = "unchanged (node with changed negamax not requeued)" if stale else "fixed (requeue)"
     ctx.log("witness of C19_fixpoint_refuted on the implementation: path error %s" % ("STALE (finding present)" if stale else "correct (fix applied)"))
     if stale:
+        # regression of fix df196fb (the `fixed:` entry suppresses nothing): a VIOLATION with the witness as replay
         last = wr["results"][-1]
         ctx.violation("after setSearchResult the path error of a node whose own negamax score changed (while its "
                       "parents' scores did not) keeps its old value: path-error equation violated",
@@ -319,6 +320,7 @@ def run(ctx):
         ctx.count("final_nodes_with_2plus_parents", f.get("multiparent", 0))
         ctx.count("final_nodes_with_parents_at_different_depths", f.get("multidepth", 0))
         ctx.count("final_nodes_with_mate_negamax", f.get("matenodes", 0))
+        ctx.count("reloads_compared_with_saved_state", f.get("reloads", 0))
         ctx.notes["max_nodes"] = max(ctx.notes.get("max_nodes", 0), f.get("nodes", 0))
         ctx.notes["max_depth"] = max(ctx.notes.get("max_depth", 0), f.get("maxdepth", 0))
         ctx.count("known_signature_path_error_failures", len(ek))
